@@ -1,10 +1,11 @@
 (* C16 - The checker never cries wolf and is exact about variable names.
-   Statements only; proofs in Proofs/CheckProofs.v and Proofs/NamesProofs.v. The two headline
-   claims are judged on every run by evaluating, inside Coq, the independent specifications
+   Statements only; proofs in Proofs/CheckProofs.v, NamesProofs.v and NamesScript.v. The second
+   headline claim (exactness about names) is proved for whole programs (C16_program_names); the
+   first (no error on a valid script) is judged on every run by evaluating, inside Coq, the independent specifications
    Spec/Names.v (events, unbound_uses, duplicate_decls, unused_decls) and Spec/Typing.v (valid) on
    the implementation's diagnostics; the theorems below tie the tables the checker model uses to
    the code and prove the name bookkeeping of the model. *)
-From NS Require Import Check CheckProofs NamesProofs Names.
+From NS Require Import Check CheckProofs NamesProofs Names NamesScript.
 From NS Require Tables.
 
 (* severities and built-in signatures are the ones the code declares (tables regenerated from
@@ -26,7 +27,22 @@ Theorem C16_expression_names : forall e t s s',
   /\ cs_unused s' = fold_left (fun acc (u : use) => aremove (fst u) acc) (uses_expr e) (cs_unused s).
 Proof. exact check_expression_names. Qed.
 
+(* exactness about names, whole programs. Spec/Names.v reads a script as a sequence of events in
+   program order (a declaration, then the uses in its own origin's arguments, ..., then the uses of
+   every statement) and says, by three independent recursions over that sequence, which uses are
+   unbound (not declared at that point), which declarations are repeated, and which first
+   declarations are never used afterwards. For EVERY program the checker analyses, the
+   UnboundVariable / DuplicateVariable / UnusedVar diagnostics it reports are exactly those three
+   lists: same names, same ranges (the token concerned), same order, each once, nothing else. *)
+Theorem C16_program_names : forall p s,
+  check_default p [] = Ok s ->
+  unbound_diags (cs_diags s) = unbound_uses [] (events p)
+  /\ dup_diags (cs_diags s) = duplicate_decls [] (events p)
+  /\ unused_diags (cs_diags s) = unused_decls [] (events p).
+Proof. exact check_program_names. Qed.
+
 Print Assumptions C16_severity_table.
+Print Assumptions C16_program_names.
 Print Assumptions C16_expression_names.
 
 Example C16_example :
@@ -36,3 +52,15 @@ Example C16_example :
   | _ => False
   end.
 Proof. reflexivity. Qed.
+
+(* vars { number $x  number $x  number $y }  set_tx_meta("k", $z): one repeated declaration, two
+   declarations never used, one unbound use *)
+Example C16_program_example :
+  let nd n c := mkvardecl norange (Some (R 0 c 0 (c + 2), n)) (Some (norange, "number")) None in
+  let p := mkprogram [nd "x" 10; nd "x" 20; nd "y" 30]
+             [StFnCall (mkfncall norange norange "set_tx_meta" [EString norange "k"; EVar (R 1 20 1 22) "z"])] in
+  unbound_uses [] (events p) = [("z", R 1 20 1 22)]
+  /\ duplicate_decls [] (events p) = [("x", R 0 20 0 22)]
+  /\ unused_decls [] (events p) = [("x", R 0 10 0 12); ("y", R 0 30 0 32)]
+  /\ match check_default p [] with Ok s => unused_diags (cs_diags s) = [("x", R 0 10 0 12); ("y", R 0 30 0 32)] | _ => False end.
+Proof. repeat split; reflexivity. Qed.
